@@ -22,6 +22,7 @@ import zlib
 import json
 import os
 import sys
+import time
 
 from vlib import common as C
 
@@ -112,6 +113,13 @@ def run_shard(lines):
 def run(chk, replay=None):
     rng = C.SplitMix(chk.seed)
     broken = []
+    phase = {}
+    t_phase = [time.time()]
+
+    def lap(name):
+        now = time.time()
+        phase[name] = round(phase.get(name, 0.0) + now - t_phase[0], 2)
+        t_phase[0] = now
     # ---- regenerate the primitive bodies, build, prove -------------------------------------------
     try:
         names, ch = translate_real.emit(os.path.join(C.LEAN, "Vita", "C13", "Gen.lean"))
@@ -137,6 +145,7 @@ def run(chk, replay=None):
     except Refuse as e:
         broken.append("tools/translate_interp.py refuses the current interpreter sources (a member function "
                       "has a shape outside the statement language): %s" % e)
+    lap("translators")
     ok, out = C.lake_build(["c01_driver"])
     drv_ok = ok
     if not ok:
@@ -145,10 +154,12 @@ def run(chk, replay=None):
     if not ok:
         broken.append("theorems of Vita.C01.Props no longer check: " + msg)
 
+    lap("lean_build_and_audit")
     wire_h = os.path.join(C.ROOT, "harness", "c01_wire.h")
     wh = hashlib.sha256(open(wire_h, "rb").read()).hexdigest()[:16]
     exe = C.build_harness("c01_interp", "asan", extra_flags=["-DWIRE_H_HASH=" + wh])
 
+    lap("vita_and_harness_build")
     # ---- scenarios -------------------------------------------------------------------------------
     quick = chk.tier == "quick"
     reqs = []
@@ -201,7 +212,9 @@ def run(chk, replay=None):
     found = []     # failing (program, example) pairs; the smallest programs are reported first
 
     def process(reqs):
+        t_phase[0] = time.time()
         answers, deaths = C.run_lines(exe, reqs, timeout=3000)
+        lap("harness_runs")
         for idx, rc, se in deaths:
             chk.violation("harness died (rc=%d) on request `%s`\n%s" % (rc, reqs[idx], se[-2500:]),
                           {"request": reqs[idx], "stderr": se[-2500:]}, tags={"request": reqs[idx], "kind": "died"})
@@ -268,6 +281,7 @@ def run(chk, replay=None):
                 dl, where = driver_lines(chain, rng)
                 work.append((q, chain, dl, where))
 
+        lap("python_compare_with_oracle")
         # ---- the model (the interpreter extracted from the sources, run by the Lean semantics) -------------
         if drv_ok and work:
             nsh = 8
@@ -276,6 +290,7 @@ def run(chk, replay=None):
                 shards[k % nsh].append(w)
             with cf.ThreadPoolExecutor(nsh) as ex_:
                 outs = list(ex_.map(lambda sh: run_shard([l for w in sh for l in w[2]]) if sh else [], shards))
+            lap("lean_driver_runs")
             for sh, out in zip(shards, outs):
                 pos = 0
                 for (q, chain, dl, where) in sh:
@@ -332,6 +347,7 @@ def run(chk, replay=None):
                         if len(chk.cov["samples"]) < 6 and items and (len(work) < 12 or zlib.crc32(prog.encode()) % 97 == 0):
                             chk.sample({"program": prog[:400], "run": items[0][1], "example": items[0][2], "vita": items[0][3],
                                         "tree_oracle": items[0][4], "model": ans[idx[0]] if idx and idx[0] < len(ans) else None})
+        lap("python_compare_with_model")
         state["work"] = state.get("work", 0) + len(work)
 
     all_reqs = reqs
@@ -348,6 +364,7 @@ def run(chk, replay=None):
             {"request": q, "program": prog, "kind": kind, "example": ex, "vita": vita, "tree": orc},
             tags={"kind": kind, "set": " ".join(q.split()[:2]), "request": q})
     chk.cov["model_vs_code_disagreements"] = ndis
+    chk.cov["phase_seconds"] = phase
 
     if broken and not [v for v in chk.violations if not v[2]]:
         for b in broken[:4]:
